@@ -141,19 +141,26 @@ def check_design(ck, d, variants, stream, sim_variants, shape_sig=None, reps=Non
         ck.disagreement('adjacency', case, ma, ra)
       if m['loop'] != m['ffloop']:
         ck.disagreement('model-loop-tests-differ', case, m['loop'], m['ffloop'])
-      # direct oracle 4: simulation
+      # direct oracle 4: simulation, under several first requests to the fresh simulator and two pass groups
       if vi in sim_variants:
         byrepr = {d.orepr(o): o for o in d.all_objects()}
         nets = [(byrepr[w], [byrepr[x] for x in n]) for (w, n) in rn if w in byrepr and all(x in byrepr for x in n)]
-        try:
-          fails = g.simulate_and_check(top, d, mod, ck.rng, nets)
-        except Exception as e:
-          # an accepted design whose nets cannot be simulated: the members do not carry the writer's value
-          fails = [dict(exception=type(e).__name__, message=str(e)[:400])]
-        ck.hist('simulated', 'yes')
-        if fails:
-          sig = dict(shape_sig) if shape_sig else {'stream': stream}
-          ck.violation('member-differs-from-writer', sig, case, {'first_failures': fails[:4], 'source': d.source([var])})
+        plans = [('eval', 'default'), ('reset', 'default'), ('tick', 'default')] if vi == min(sim_variants) else \
+                [(ck.rng.choice(['eval', 'reset', 'tick']), ck.rng.choice(['unroll', 'mamba']))]
+        for pi, (drive, flow) in enumerate(plans):
+          t2 = top
+          if pi > 0:
+            t2, exc2, _ = g.elaborate(mod, d, vi)
+            if exc2 is not None: break
+          try:
+            fails = g.simulate_and_check(t2, d, mod, ck.rng, nets, nvec=2, drive=drive, flow=flow)
+          except Exception as e:
+            # an accepted design whose nets cannot be simulated: the members do not carry the writer's value
+            fails = [dict(exception=type(e).__name__, message=str(e)[:400], drive=drive, flow=flow)]
+          ck.hist('simulated', f'{flow}:{drive}-first')
+          if fails:
+            sig = dict(shape_sig) if shape_sig else {'stream': stream}
+            ck.violation('member-differs-from-writer', sig, case, {'first_failures': fails[:4], 'source': d.source([var])})
   finally:
     g.unload_module(mod)
   ck.hist('levels', desc['levels']); ck.hist('components', desc['comps'])
